@@ -180,6 +180,10 @@ def cases(tier, seed):
                 out.append({'fam': 'MEM', 'aw': 2, 'bw': 3, 'nr': 1, 'nw': nw, 'enable': ek, 'k': 'step', 'backend': be})
     out.append({'fam': 'HELPER', 'k': 'chelper', 'limbs': 1, 'backend': 'compiled'})
     out.append({'fam': 'HELPER', 'k': 'chelper', 'limbs': 2, 'backend': 'compiled'})
+    # sparse memories of up to 64 address bits are legal: the keys the helper stores are 64-bit
+    out.append({'fam': 'HELPER', 'k': 'chelper', 'limbs': 1, 'backend': 'compiled', 'aw': 40})
+    out.append({'fam': 'HELPER', 'k': 'chelper', 'limbs': 1, 'backend': 'compiled', 'aw': 64})
+    out.append({'fam': 'HELPER', 'k': 'chelper', 'limbs': 2, 'backend': 'compiled', 'aw': 64})
     for data in ('list', 'short_list', 'dict', 'sparse_dict', 'func'):
         for pad in (False, True):
             for aw, bw in ((1, 3), (3, 5), (4, 70)):
@@ -392,11 +396,11 @@ def run_rom(case, ob, site):
         ob.prove_all(goals, r.pc, v)
 
 
-def helper_design(limbs):
+def helper_design(limbs, aw=16):
     pyrtl.reset_working_block()
     bw = 8 if limbs == 1 else 70
-    m = pyrtl.MemBlock(bitwidth=bw, addrwidth=16, name='m', asynchronous=True)
-    wa, wd, we, ra = pyrtl.Input(16, 'wa'), pyrtl.Input(bw, 'wd'), pyrtl.Input(1, 'we'), pyrtl.Input(16, 'ra')
+    m = pyrtl.MemBlock(bitwidth=bw, addrwidth=aw, name='m', asynchronous=True)
+    wa, wd, we, ra = pyrtl.Input(aw, 'wa'), pyrtl.Input(bw, 'wd'), pyrtl.Input(1, 'we'), pyrtl.Input(aw, 'ra')
     m[wa] <<= pyrtl.MemBlock.EnabledWrite(wd, we)
     o = pyrtl.Output(bw, 'rd')
     o <<= m[ra]
@@ -406,10 +410,10 @@ def helper_design(limbs):
 def run_chelper(case, ob, site):
     """the C hash-map helper text (insert/lookup) implements a map: BMC over three symbolic inserts and a symbolic lookup"""
     from .. import chelper
-    block, bw = helper_design(case['limbs'])
+    block, bw = helper_design(case['limbs'], case.get('aw', 16))
     cm = CompiledModel(block)
     try:
-        goal, assume, unwinding, hv = chelper.map_obligation(cm.text, case['limbs'], nins=3, unroll=4, valbits=bw)
+        goal, assume, unwinding, hv = chelper.map_obligation(cm.text, case['limbs'], nins=3, unroll=4, valbits=bw, keybits=case.get('aw', 16))
     except chelper.CHelperError as e:
         raise sym.HarnessError('helper text outside the recognised subset: %s' % e)
 
@@ -462,24 +466,25 @@ def replay(cex):
                for t in range(K) if trace[n][t] != etrace[n][t]]
         return bool(bad), 'case=%r inputs=%r\n%s' % (case, mv, '\n'.join(bad[:8]))
     if case['k'] == 'chelper':
-        block, bw = helper_design(case['limbs'])
+        block, bw = helper_design(case['limbs'], case.get('aw', 16))
         sim = pyrtl.CompiledSimulation(block=block)
         ref = {}
         mask = (1 << bw) - 1
+        amask = (1 << case.get('aw', 16)) - 1
         bad = []
         # the history of the obligation: each step reads (lookup) and then writes (insert)
         steps = list(zip(cex['qs'], cex['keys'] + [None], cex['vals'] + [None]))
         for n, (q, k, x) in enumerate(steps):
-            q &= 0xffff
+            q &= amask
             if k is None:
                 sim.step({'wa': 0, 'wd': 0, 'we': 0, 'ra': q})
             else:
-                sim.step({'wa': k & 0xffff, 'wd': x & mask, 'we': 1, 'ra': q})
+                sim.step({'wa': k & amask, 'wd': x & mask, 'we': 1, 'ra': q})
             if sim.inspect('rd') != ref.get(q, 0):
                 bad.append('step %d: after writing %r the read of address %d returns %d, expected %d'
                            % (n, ref, q, sim.inspect('rd'), ref.get(q, 0)))
             if k is not None:
-                ref[k & 0xffff] = x & mask
+                ref[k & amask] = x & mask
         for a in sorted(ref):
             sim.step({'wa': 0, 'wd': 0, 'we': 0, 'ra': a})
             if sim.inspect('rd') != ref.get(a, 0):
